@@ -212,13 +212,28 @@ def XmlMeta.findAnyAttributes (m : XmlMeta) (qname : QN) : Option XmlVar :=
 
 def XmlMeta.findAnyWildcard (m : XmlMeta) : Option XmlVar := m.wildcards.head?
 
+/-! ### values -/
+
+inductive Val
+  | none
+  | prim (p : PVal)
+  | list (xs : List Val)
+  | obj (cls : ClassId) (fields : List (Str × Val))
+  | any (qname : Option QN) (text tail : Option Str) (attrs : List (QN × Str)) (children : List Val)
+  | derived (qname : QN) (value : Val) (type : Option QN)
+  | attrs (m : List (QN × Str))           -- an `Attributes` dict
+deriving Repr
+
 /-! ### class universe -/
 
 structure FieldInfo where
   name : Str
   init : Bool
-  hasDefault : Bool
-deriving DecidableEq, Repr
+  /-- `default` / `default_factory()` of the dataclass field; `none` = no default -/
+  default : Option Val
+deriving Repr
+
+def FieldInfo.hasDefault (f : FieldInfo) : Bool := f.default.isSome
 
 structure ClassInfo where
   id : ClassId
@@ -252,18 +267,6 @@ def Ctx.isSubclass (Γ : Ctx) (c parent : ClassId) : Bool :=
   match Γ.find c with
   | some ci => ci.mro.contains parent
   | none => false
-
-/-! ### values -/
-
-inductive Val
-  | none
-  | prim (p : PVal)
-  | list (xs : List Val)
-  | obj (cls : ClassId) (fields : List (Str × Val))
-  | any (qname : Option QN) (text tail : Option Str) (attrs : List (QN × Str)) (children : List Val)
-  | derived (qname : QN) (value : Val) (type : Option QN)
-  | attrs (m : List (QN × Str))           -- an `Attributes` dict
-deriving Repr
 
 /-! ### writer events (serializers/mixins.py) -/
 
